@@ -144,6 +144,9 @@ def solo {σ τ ω : Type} (m : Machine σ τ ω) (disk : Disk) (t : τ) : Optio
 structure NFlags where
   getset : Bool := false
   json : Bool := false
+  opt : Bool := false          -- -opt / -option
+  short : Bool := false        -- -short: option functions without the `Of<Type>` suffix
+  tagcase : String := "camel"  -- -tagcase=pascal|camel|lower|upper
   deriving DecidableEq, Repr, Inhabited
 
 /-- entry of `getsetMethods` (shoot.Func): `getter` = no parameter and one result -/
@@ -185,6 +188,9 @@ structure NOut where
   jget : List String                    -- MarshalJSON reads these through getters
   jset : List String                    -- UnmarshalJSON writes these through setters
   jexp : List String
+  tags : List (String × String)         -- `_json_T`: struct field ↦ json tag            (type and flags only)
+  opts : List String                    -- -opt: names of the option functions            (type and flags only)
+  defaults : List String                -- -opt: fields assigned by SetDefault            (type and flags only)
   ifaceGet : Option IfaceDef            -- the generated TGetter (none: not generated)
   ifaceSet : Option IfaceDef
   deriving DecidableEq, Repr, Inhabited
@@ -264,7 +270,12 @@ def newCore (lk : Leaks) (fl : NFlags) (st : NSt) (t : NType)
   let jget := jpick true sw t accs unexp
   let jset := jpick false sw t accs unexp
   let jexp := (vis.filter (fun f => exported f.name)).map (·.name)
-  let needJSON := fl.json && (!jexp.isEmpty || !jget.isEmpty || !jset.isEmpty)
+  -- json.go: `trans` by -tagcase; an explicit json tag is kept verbatim (fd6fe9d)
+  let trans : String → String := if fl.tagcase = "pascal" then Transfer.pascalS else if fl.tagcase = "lower" then Transfer.lowerS
+    else if fl.tagcase = "upper" then Transfer.upperS else Transfer.camelS
+  let tagOf := fun (f : Ctor.Field) => if f.jsonTag ≠ "" then f.jsonTag else trans f.name
+  let needJSON := fl.json && (vis.any (fun f => exported f.name && f.jsonTag = "" && trans f.name ≠ f.name) || !jget.isEmpty || !jset.isEmpty)
+  let jsonList := vis.filter (fun f => exported f.name || jget.contains f.name || jset.contains f.name)
   let hasG := fl.getset && (!getE.isEmpty || !getList.isEmpty)
   let hasS := fl.getset && (!setE.isEmpty || !setList.isEmpty)
   let out : NOut :=
@@ -277,6 +288,10 @@ def newCore (lk : Leaks) (fl : NFlags) (st : NSt) (t : NType)
       jget := if needJSON then jget else [],
       jset := if needJSON then jset else [],
       jexp := if needJSON then jexp else [],
+      tags := if needJSON then jsonList.map (fun f => (Transfer.pascalS f.name, tagOf f)) else [],
+      -- constructor.tmpl, -opt: one option function per AllList entry, SetDefault over DefaultList
+      opts := if fl.opt then vis.map (fun f => Transfer.pascalS f.name ++ (if fl.short then "" else "Of" ++ t.name)) else [],
+      defaults := if fl.opt then (vis.filter (fun f => f.defv ≠ "")).map (·.name) else [],
       ifaceGet := mkIface hasG getE "Getter" (getList.map Transfer.pascalS),
       ifaceSet := mkIface hasS setE "Setter" (setList.map (fun n => "Set" ++ Transfer.pascalS n)) }
   ({ hasNew := hasNew, accs := accs, getter := sw.1, setter := sw.2, fields := fields }, some out)
